@@ -1,6 +1,7 @@
 """C11 — every export format is a faithful image of the query results."""
 
 import csv
+import os
 import datetime
 import io
 import json
@@ -26,13 +27,16 @@ RULE = ('Generated result sets, two ways: (a) real gambit.query.query runs on sy
         '(ORM objects by key, distances by bits, warnings, error, success, params, label, file, timestamp, version, extra) and by the '
         'classes\' own ==. Non-trivial: >= 1 item with a prediction and >= 1 special character (comma, quote, newline, non-ASCII) in a '
         'label or name; distinct by case hash.')
-ASSUMPTIONS = ['text contains no NUL, no surrogates and no lone CR (csv.writer with lineterminator="\\n" does not quote a lone CR; '
+ASSUMPTIONS = ['generated text contains no NUL and no lone CR; lone surrogates only as produced by surrogateescape decoding of file names (JSON/archive only: CSV text with them cannot be encoded by any exporter)',
+               'text contains no lone CR (csv.writer with lineterminator="\\n" does not quote a lone CR; '
                '"newlines" is read as LF / CRLF)', 'labels are str (QueryInput.label is annotated str)']
 DEADLINE_S = {'quick': 240, 'thorough': 2400}
 
 TEXT = st.text(alphabet=st.characters(blacklist_characters='\x00\r', blacklist_categories=('Cs',)), max_size=15)
 NASTY = st.sampled_from(['a,b', '"q"', "it's", 'line\nbreak', 'crlf\r\nx', 'ünï', '日本語', ' lead', 'trail ', '', '=1+1', 'tab\tx', 'plain', ',', '""', '\n'])
-LABEL = st.one_of(TEXT, NASTY, st.text(alphabet='abcXYZ019_.-', min_size=1, max_size=10))
+# file names that are not valid UTF-8 reach Python as str with lone surrogates (surrogateescape): legitimate labels of real files
+UNDECODABLE = st.sampled_from(['caf\udce9', 'g\udcfc\udcdf.fasta', '\udcff'])
+LABEL = st.one_of(TEXT, NASTY, st.text(alphabet='abcXYZ019_.-', min_size=1, max_size=10), TEXT, UNDECODABLE)
 JSON_LEAF = st.one_of(st.none(), st.booleans(), st.integers(-2 ** 60, 2 ** 60), st.floats(allow_nan=False, allow_infinity=False), TEXT)
 JSON_VAL = st.recursive(JSON_LEAF, lambda ch: st.one_of(st.lists(ch, max_size=3), st.dictionaries(TEXT, ch, max_size=3)), max_leaves=8)
 
@@ -296,6 +300,39 @@ def run_case(case, ctx):
 		deep_compare(res, back, case, 'archive (same session)')
 		if not (back == res):
 			raise Violation('archive_not_equal', 'archive read back on the same session does not compare == to the original (deep comparison found no difference)', case)
+		# ---- the same exports written to real files (the CLI's -o path): encoding of the text matters here ----
+		has_surrogate = any(0xD800 <= ord(ch) <= 0xDFFF for it in res.items for ch in it.input.label)
+		jpath = ctx.fresh_path('.json')
+		apath = ctx.fresh_path('.json')
+		try:
+			JSONResultsExporter().export(jpath, res)
+			ResultsArchiveWriter().export(apath, res)
+		except Exception as e:
+			raise Violation('exception', f'export to a file path raised {type(e).__name__}: {e}', case)
+		try:
+			jdata = json.loads(open(jpath, 'rb').read().decode('utf-8', 'surrogateescape'), parse_constant=bad_const)
+		except ValueError as e:
+			raise Violation('json_invalid', f'JSON file written by the exporter is not valid JSON: {e}', case)
+		if [d['query']['name'] for d in jdata['items']] != [it.input.label for it in res.items]:
+			raise Violation('json_label', 'labels in the JSON file differ from the results object', case)
+		try:
+			back_f = ResultsArchiveReader(db.session).read(apath)
+		except Exception as e:
+			raise Violation('archive_unreadable', f'archive file cannot be read back: {type(e).__name__}: {str(e)[:300]}', case)
+		deep_compare(res, back_f, case, 'archive (file)')
+		if not has_surrogate:
+			cpath = ctx.fresh_path('.csv')
+			try:
+				CSVResultsExporter().export(cpath, res)
+			except Exception as e:
+				raise Violation('exception', f'CSV export to a file path raised {type(e).__name__}: {e}', case)
+			with open(cpath, newline='', encoding='utf-8') as f:
+				if list(csv.reader(f)) != rows:
+					raise Violation('csv_file_differs', 'CSV written to a file path parses differently from the CSV written to a stream', case)
+			os.unlink(cpath)
+		os.unlink(jpath); os.unlink(apath)
+		if has_surrogate:
+			classes.add('label_from_undecodable_file_name')
 		session2 = file_sessionmaker(W.gdb_path)()
 		try:
 			back2 = ResultsArchiveReader(session2).read(io.StringIO(buf.getvalue()))
